@@ -302,6 +302,32 @@ func init() {
 		HSpec{Pkg: swapPkg, Func: "VerifHarness_C13_SellWithOrders", Tier: "quick", Configs: []map[string]int64{cfg("orders", 0), cfg("orders", 1)}, Bounds: "concrete pool 10000/10000 BIP and concrete resting orders; taker amount symbolic in (0, 100000 BIP]"},
 		HSpec{Pkg: swapPkg, Func: "VerifHarness_C13_SellWithOrders", Tier: "thorough", Configs: []map[string]int64{cfg("orders", 2)}, Bounds: "as above with two order levels"})
 
+	// ---------------------------------------------------------- C17 validator set
+	{
+		c17a := append([]string{
+			"ranking harness: 100..102 concrete candidates with single base-coin stakes of a few distinct values (ties resolved by id), one low-ranked candidate being a current validator, plus one candidate whose stake is symbolic (every position of the ranking, ties included); the real limits 100 / 64 / 1000 of the code are used unscaled (validator count 4 is passed to GetNewCandidates by the harness)",
+			"slots harness: one candidate with all 1000 delegation slots filled (concrete stakes, unique smallest) and one incoming delegation of symbolic value",
+			"powers harness: 3 online candidates with symbolic stakes through the real Blockchain.updateValidators (version table of a current chain: 64 validators max)",
+			"custom-coin stakes (bip value through the bancor formula), punishments and status switches between updates are outside these harnesses",
+		}, commonAssumptions...)
+		add("C17", c17a,
+			HSpec{Pkg: "coreV2/state", Func: "VerifHarness_C17_Ranking", Tier: "quick", Configs: cfgs("n", 99, 100, 101, 102), Bounds: "n concrete candidates + 1 symbolic; one RecalculateStakesV2 and GetNewCandidates(4)"},
+			HSpec{Pkg: "coreV2/state", Func: "VerifHarness_C17_FullSlots", Tier: "quick", Bounds: "1000 concrete stakes + 1 symbolic delegation; one RecalculateStakesV2"},
+			HSpec{Pkg: minterPkg, Func: "VerifHarness_C17_Powers", Tier: "quick", Bounds: "3 candidates, stakes unbounded positive (two of them >= 1000 BIP); one updateValidators"})
+		add("C07", c17a,
+			HSpec{Pkg: "coreV2/state", Func: "VerifHarness_C17_Ranking", Tier: "quick", Configs: cfgs("n", 101), Bounds: "102 candidates; no panic"},
+			HSpec{Pkg: "coreV2/state", Func: "VerifHarness_C17_FullSlots", Tier: "quick", Bounds: "full slots; no panic"})
+	}
+
+	// ---------------------------------------------------------- CreateSwapPool (C07 boundary, C22 ids, C13 creation)
+	{
+		cp := HSpec{Pkg: txPkg, Func: "VerifHarness_CreatePool_Deliver", Tier: "quick", Configs: []map[string]int64{cfg("concretePrices", 1), cfg("concretePrices", 1, "reverse", 1)},
+			Bounds: "one CheckTx+DeliverTx of CreateSwapPool (bancor coin, token) with arbitrary volumes; sqrt by contract"}
+		for _, id := range []string{"C07", "C22", "C13", "C01", "C02", "C03", "C05", "C06"} {
+			add(id, txAssumptions, cp)
+		}
+	}
+
 	// ---------------------------------------------------------- C15 slippage limits and result tags
 	{
 		cp := func(kv ...interface{}) map[string]int64 { return cfg(append([]interface{}{"concretePrices", 1}, kv...)...) }
